@@ -297,7 +297,7 @@ func fetchRecent(fetchconf lfs.FetchPruneConfig, alreadyFetchedRefs []*git.Ref, 
 		}
 		for _, ref := range refs {
 			// Don't fetch for the same SHA twice
-			if prevRefName, ok := uniqueRefShas[ref.Sha]; ok {
+			if prevRefName, seen := uniqueRefShas[ref.Sha]; seen {
 				if ref.Name != prevRefName {
 					tracerx.Printf("Skipping fetch for %v, already fetched via %v", ref.Name, prevRefName)
 				}
